@@ -5,6 +5,7 @@ package verifharness_test
 import (
 	"fmt"
 	"math/rand/v2"
+	"strconv"
 	"testing"
 
 	"github.com/jub0bs/cors"
@@ -189,6 +190,124 @@ func c06Run(r *Run, l *Local, c *CfgSpec) {
 	}
 }
 
+// c06Bursts: Config() is called, then k successful reconfigurations follow (the last one to another configuration), then
+// Config() again: it must describe the configuration in force (lesson of seeded change C06-o: a cached rendering tagged
+// with a counter that wraps).
+func c06Bursts(r *Run) {
+	if r.Replaying() || r.Phase == "coverage" {
+		return
+	}
+	ks := []int{1, 2, 255, 256, 257, 511, 512, 65535, 65536}
+	r.Parallel(len(ks), func(l *Local) {
+		k := ks[l.Batch]
+		a := cors.Config{Origins: []string{"https://a.example.com"}, Methods: []string{"PUT"}, MaxAgeInSeconds: 30}
+		b := cors.Config{Origins: []string{"https://b.example.com", "https://*.b.example.com"}, Methods: []string{"DELETE"}, RequestHeaders: []string{"X-B"}, MaxAgeInSeconds: 60}
+		for _, withNil := range []bool{false, true} {
+			m, err := cors.NewMiddleware(a)
+			if err != nil {
+				return
+			}
+			_ = m.Config()
+			serve(m, preflightReq("https://a.example.com", "PUT", nil, false))
+			for i := 0; i < k-1; i++ {
+				c := a
+				if withNil && i%2 == 1 {
+					_ = m.Reconfigure(nil)
+				} else {
+					_ = m.Reconfigure(&c)
+				}
+			}
+			c := b
+			if err := m.Reconfigure(&c); err != nil {
+				return
+			}
+			l.evals++
+			l.nontrivN++
+			l.counters["config_after_a_burst_of_reconfigurations"]++
+			fresh, _ := cors.NewMiddleware(b)
+			got, want := m.Config(), fresh.Config()
+			if !configEqual(got, want) {
+				r.Violate("config-stale-after-burst", "round-trip", fmt.Sprintf("Config() called, then %d successful reconfigurations (nil in between: %v), the last one to %s: Config() returns %s", k, withNil, cfgString(want), cfgString(got)), nil)
+				return
+			}
+			o := serve(m, preflightReq("https://b.example.com", "DELETE", []string{"x-b"}, false))
+			if !(o.ok2xx() && len(o.get(hACAO)) > 0) {
+				r.Violate("config-stale-after-burst", "round-trip", fmt.Sprintf("after %d successful reconfigurations the middleware does not answer according to the last one: %s", k, o), nil)
+				return
+			}
+		}
+	})
+}
+
+// c06Integers: every max-age in [-1, 86400] and every status in {0, 200..299}: Config() reports the value (or its documented
+// equivalent) and a middleware built from Config() sends the same Access-Control-Max-Age / status
+// (lesson of seeded changes C03-o, C06-l: one integer value treated specially).
+func c06Integers(r *Run) {
+	if r.Replaying() || r.Phase == "coverage" {
+		return
+	}
+	const chunks = 64
+	r.Parallel(chunks, func(l *Local) {
+		pf := preflightReq("https://example.com", "PUT", nil, false)
+		for v := -1 + l.Batch; v <= 86400; v += chunks {
+			cfg := cors.Config{Origins: []string{"https://example.com"}, Methods: []string{"PUT"}, MaxAgeInSeconds: v}
+			m, err := cors.NewMiddleware(cfg)
+			l.evals++
+			if err != nil {
+				r.Violate("valid-rejected", "round-trip", fmt.Sprintf("max-age %d rejected: %v", v, err), nil)
+				return
+			}
+			o := serve(m, pf)
+			want := []string{strconv.Itoa(v)}
+			if v == -1 {
+				want = []string{"0"}
+			} else if v == 0 {
+				want = nil
+			}
+			if !equalStrings(o.get(hACMA), want) {
+				r.Violate("max-age-not-as-configured", "round-trip", fmt.Sprintf("MaxAgeInSeconds %d: a succeeding preflight carries Access-Control-Max-Age %q, expected %q", v, o.get(hACMA), want), nil)
+				return
+			}
+			m2, err := cors.NewMiddleware(*m.Config())
+			if err != nil || !serve(m2, pf).Equal(o) {
+				r.Violate("constructors-disagree", "round-trip", fmt.Sprintf("MaxAgeInSeconds %d: a middleware built from Config() (%s) answers differently (%v)", v, cfgString(m.Config()), err), nil)
+				return
+			}
+			l.nontrivN++
+		}
+		for st := 200 + l.Batch; st <= 299; st += chunks {
+			cfg := cors.Config{Origins: []string{"https://example.com"}, Methods: []string{"PUT"}, MaxAgeInSeconds: 7, ExtraConfig: cors.ExtraConfig{PreflightSuccessStatus: st}}
+			m, err := cors.NewMiddleware(cfg)
+			l.evals++
+			if err != nil {
+				r.Violate("valid-rejected", "round-trip", fmt.Sprintf("status %d rejected: %v", st, err), nil)
+				return
+			}
+			for _, dbg := range []bool{false, true} {
+				m.SetDebug(dbg)
+				o := serve(m, pf)
+				if o.Status != st {
+					r.Violate("status-not-as-configured", "round-trip", fmt.Sprintf("PreflightSuccessStatus %d (debug=%v): a succeeding preflight is answered with status %d", st, dbg, o.Status), nil)
+					return
+				}
+				if dbg {
+					if f := serve(m, preflightReq("https://example.com", "UNLISTED", nil, false)); f.Status != st {
+						r.Violate("status-not-as-configured", "round-trip", fmt.Sprintf("PreflightSuccessStatus %d, debug on: a preflight failing at the method step is answered with status %d", st, f.Status), nil)
+						return
+					}
+				}
+			}
+			m.SetDebug(false)
+			m2, err := cors.NewMiddleware(*m.Config())
+			if err != nil || !serve(m2, pf).Equal(serve(m, pf)) {
+				r.Violate("constructors-disagree", "round-trip", fmt.Sprintf("PreflightSuccessStatus %d: a middleware built from Config() answers differently (%v)", st, err), nil)
+				return
+			}
+		}
+	})
+	r.Exhaustive("every MaxAgeInSeconds in [-1, 86400] and every PreflightSuccessStatus in [200, 299]: header / status as configured, and the same from a middleware built from Config()")
+}
+
 func TestVerif_C06(t *testing.T) {
 	r := newRun(t, "C06")
 	r.Rule("valid configurations by construction (cross-field generator of C05 enriched with IPv4/IPv6 literals sharing suffixes, trailing-dot hosts, `*.`/`:*`/both, duplicate and mutually subsuming patterns in both orders, `*` next to discrete values in each list, safelisted-only lists, max-age -1/0, status 204/200/299) + the C02 product; " +
@@ -204,6 +323,8 @@ func TestVerif_C06(t *testing.T) {
 		r.Finish(0)
 		return
 	}
+	c06Bursts(r)
+	c06Integers(r)
 	prod, _ := c02Product()
 	stride := pick(r, 11, 1)
 	r.Parallel(len(prod), func(l *Local) {
